@@ -291,7 +291,9 @@ def check_table(m, phase, fe, cfg, report):
             else:
                 g = m.grad(x, Ti)
                 step = float(np.linalg.norm(np.linalg.solve(H, g)))
-                tolx = TOL_SAFETY * err_model(m, rTol, 1.0, v, emin)
+                # (how accurately the OTHER phase's minimum is located is not the point here:
+                # 1e-4 of the field scale separates "a minimum" from "in transit")
+                tolx = max(TOL_SAFETY * err_model(m, rTol, 1.0, v, emin), 1e-4 * fs)
                 # genuine minimum of ANOTHER phase, or a point in transit to it
                 (beyond_min if step <= tolx else beyond_trans).append(rec)
             continue
